@@ -20,7 +20,10 @@ MANIFEST = {
             "hypotheses). Extracted model vs implementation with the library's random draws replaced by the same bytes.",
     "note": "scrypt, AES-256-ECB, SHA-256, NFC, UTF-8, the secp256k1 group and the P2PKH address function are oracles "
             "(hashlib, pycryptodome, unicodedata, own EC arithmetic); laws used: AES dec(enc) = id on 16-byte blocks, output "
-            "lengths, Z-module laws of the group.",
+            "lengths, Z-module laws of the group. LINKED: the *_concrete theorems instantiate the P2PKH address function "
+            "(Base58Check over hash160 of the serialised point, net version read from the Bip38Addr source) and UTF-8 (the RFC 3629 "
+            "model of C19) -- both run inside the extracted model in the link.bip38c_* entries; ripemd160 and the uncompressed "
+            "point serialisation become oracles instead.",
     "technique": "Coq proof + generated-constant obligations (slice bounds taken from the function bodies by AST) + "
                  "extracted-model differential run + direct recomputation from the BIP text",
     "ref": "7/C13",
@@ -510,7 +513,75 @@ def gen_ec(ctx):
         ctx.run("bip38_ec_decrypt", [ref.b58check(b), pw], "corrupt-field")
 
 
+# ------------------------------------------------------------------ linked models (Extract/Api_link.v)
+# BIP-38 with the P2PKH address (Base58Check over hash160) and UTF-8 computed INSIDE the model: the theorems
+# *_concrete of Props/C13.v are about these functions.  The KDF makes every implementation call expensive, so the
+# implementation results of the cases already run above are memoised and the linked model is run on exactly those
+# arguments (its scrypt is memoised on the oracle side); the address layer itself is compared on many points.
+
+_SEEN = {}
+
+
+def _recorded(fn, impl):
+    cache = {}
+
+    def g(a):
+        k = repr(list(a))
+        if k not in cache:
+            _SEEN.setdefault(fn, []).append(list(a))
+            try:
+                cache[k] = ("ok", impl(a))
+            except BaseException as e:  # noqa
+                cache[k] = ("err", e)
+        r = cache[k]
+        if r[0] == "err":
+            raise r[1]
+        return r[1]
+    return g
+
+
+for _fn, _tw in [("bip38_noec_encrypt", "bip38c_noec_encrypt"), ("bip38_noec_decrypt", "bip38c_noec_decrypt"),
+                 ("bip38_ec_generate", "bip38c_ec_generate"), ("bip38_ec_decrypt", "bip38c_ec_decrypt")]:
+    FUNCS[_fn].impl = _recorded(_fn, FUNCS[_fn].impl)
+    FUNCS[_tw] = Func(model=_m("link." + _tw, (2,) if _fn == "bip38_ec_generate" else ()), impl=FUNCS[_fn].impl)
+
+
+def impl_bip38_address(a):
+    P, c = a
+    from bip_utils import P2PKHAddr, CoinsConf, Secp256k1PublicKey
+    pub = Secp256k1PublicKey.FromBytes(K1.ser_c((P[0], P[1])))
+    return P2PKHAddr.EncodeKey(pub, net_ver=CoinsConf.BitcoinMainNet.ParamByKey("p2pkh_net_ver"), pub_key_mode=MODES[bool(c)])
+
+
+def impl_bip38_address_hash(a):
+    P, c = a
+    from bip_utils.bip.bip38.bip38_addr import Bip38Addr
+    return Bip38Addr.AddressHash(K1.ser_c((P[0], P[1])), MODES[bool(c)])
+
+
+FUNCS["bip38c_address"] = Func(
+    model=_m("link.bip38c_address"), impl=impl_bip38_address,
+    direct=lambda a: None if impl_bip38_address(a) == ref.p2pkh_btc(a[0], bool(a[1])).str() else "address differs from the definition")
+FUNCS["bip38c_address_hash"] = Func(
+    model=_m("link.bip38c_address_hash"), impl=impl_bip38_address_hash,
+    direct=lambda a: None if impl_bip38_address_hash(a) == addr_hash(a[0], bool(a[1])) else "address hash differs from the definition")
+
+
+def gen_link(ctx):
+    rng = ctx.rng
+    ks = [1, 2, 3, NORD - 1, NORD - 2, 2**255 % NORD, 7 * 2**128] + [rng.randrange(1, NORD) for _ in range(ctx.n(100, 1500))]
+    for i, k in enumerate(ks):
+        P = K1.mul(k, K1.G)
+        ctx.run("bip38c_address", [[P[0], P[1]], i % 2], "link-address")
+        ctx.run("bip38c_address_hash", [[P[0], P[1]], (i + 1) % 2], "link-address")
+    for fn, tw in [("bip38_noec_encrypt", "bip38c_noec_encrypt"), ("bip38_noec_decrypt", "bip38c_noec_decrypt"),
+                   ("bip38_ec_generate", "bip38c_ec_generate"), ("bip38_ec_decrypt", "bip38c_ec_decrypt")]:
+        for a in list(_SEEN.get(fn, [])):
+            ctx.run(tw, a, "link-same-args")
+
+
 def generate(ctx):
     gen_wif(ctx)
     gen_noec(ctx)
     gen_ec(ctx)
+    gen_link(ctx)
